@@ -112,6 +112,7 @@ class Exporter:
         # apart from same-named locals of other routines)
         self.import_types = {}
         self.imports_seen = {}
+        self._expand = {}        # callee name -> {dummy position: [(leaf suffix, leaf dims)]}
         self.track_range = None  # (schedule node, first, last+1): statements to track
 
     # ------------------------------------------------------------ expressions
@@ -423,8 +424,34 @@ class Exporter:
                 self.subs[name] = self.sub(target)
             finally:
                 self._busy.discard(name)
-        return {"k": "call", "name": name,
-                "args": [self.expr(a) for a in node.arguments]}
+        expand = self._expand.get(name, {})
+        args = []
+        for k, a in enumerate(node.arguments):
+            if k in expand:
+                args.extend(self._struct_actual(a, expand[k]))
+            else:
+                args.append(self.expr(a))
+        return {"k": "call", "name": name, "args": args}
+
+    def _struct_actual(self, node, leaves):
+        '''actual argument of derived type -> one actual per leaf component (the dummy
+        was flattened the same way by sub()): `p` -> p%x, p%v, ...; `cols(n)` ->
+        cols%x(n), cols%v(n, lo:hi), ...'''
+        N, _ = _imports()
+        if type(node) is N.Reference:
+            return [{"k": "ref", "name": node.symbol.name.lower() + suffix}
+                    for suffix, _ in leaves]
+        if type(node) is N.ArrayReference:
+            idx = [self.index(c) for c in node.indices]
+            out = []
+            for suffix, dims in leaves:
+                full = [{"k": "range", "lo": {"k": "lit", "t": "int", "v": lo},
+                         "hi": {"k": "lit", "t": "int", "v": hi},
+                         "st": {"k": "lit", "t": "int", "v": 1}} for lo, hi in dims]
+                out.append({"k": "aref", "name": node.symbol.name.lower() + suffix,
+                            "idx": idx + full})
+            return out
+        raise Unsupported("derived-type actual argument " + type(node).__name__)
 
     def fcall(self, node):
         '''A reference to a user function inside an expression: hoisted call,
@@ -473,11 +500,30 @@ class Exporter:
         table = routine.symbol_table
         formals, locals_ = [], []
         argset = set(id(a) for a in table.argument_list)
-        for a in table.argument_list:
+        expand = {}
+        for pos, a in enumerate(table.argument_list):
             if not isinstance(a, S.DataSymbol):
                 raise Unsupported("non-data dummy argument")
             lo = []
             rank = 0
+            stype, pre = None, []
+            if isinstance(a.datatype, S.DataTypeSymbol) and \
+                    isinstance(a.datatype.datatype, S.StructureType):
+                stype = a.datatype.datatype
+            elif isinstance(a.datatype, S.ArrayType) and \
+                    isinstance(a.datatype.intrinsic, S.DataTypeSymbol) and \
+                    isinstance(a.datatype.intrinsic.datatype, S.StructureType):
+                stype = a.datatype.intrinsic.datatype
+                pre = self._dims(a.datatype.shape, a.name)
+            if stype is not None:
+                # a dummy of derived type: one dummy per leaf component (flat store)
+                leaves = self._flatten(a.name.lower(), stype, "in", True, pre)
+                own = len(pre)
+                expand[pos] = [(d["name"][len(a.name):], d["dims"][own:]) for d in leaves]
+                for d in leaves:
+                    formals.append({"name": d["name"], "ty": d["ty"],
+                                    "lo": [x[0] for x in d["dims"]], "rank": len(d["dims"])})
+                continue
             if isinstance(a.datatype, S.ArrayType):
                 rank = len(a.datatype.shape)
                 for dim in a.datatype.shape:
@@ -493,6 +539,7 @@ class Exporter:
                         raise Unsupported("dummy array bound")
             formals.append({"name": a.name.lower(), "ty": _ty(a.datatype),
                             "lo": lo, "rank": rank})
+        self._expand[routine.name.lower()] = expand
         prelude = []
         rsym = routine.return_symbol
         if rsym is not None:
